@@ -5142,7 +5142,11 @@ fn evaluate_scalar_func(
                 .iter()
                 .zip(right.iter())
                 .map(|(l, r)| match (l, r) {
-                    (Some(lv), Some(rv)) => Some(lv << (rv as u32)),
+                    (Some(lv), Some(rv)) => Some(if (0..64).contains(&rv) {
+                        lv << (rv as u32)
+                    } else {
+                        0
+                    }),
                     _ => None,
                 })
                 .collect();
@@ -5172,7 +5176,11 @@ fn evaluate_scalar_func(
                 .iter()
                 .zip(right.iter())
                 .map(|(l, r)| match (l, r) {
-                    (Some(lv), Some(rv)) => Some((lv as u64 >> (rv as u32)) as i64),
+                    (Some(lv), Some(rv)) => Some(if (0..64).contains(&rv) {
+                        (lv as u64 >> (rv as u32)) as i64
+                    } else {
+                        0
+                    }),
                     _ => None,
                 })
                 .collect();
@@ -5206,7 +5214,13 @@ fn evaluate_scalar_func(
                 .iter()
                 .zip(right.iter())
                 .map(|(l, r)| match (l, r) {
-                    (Some(lv), Some(rv)) => Some(lv >> (rv as u32)),
+                    (Some(lv), Some(rv)) => Some(if (0..64).contains(&rv) {
+                        lv >> (rv as u32)
+                    } else if lv < 0 {
+                        -1
+                    } else {
+                        0
+                    }),
                     _ => None,
                 })
                 .collect();
